@@ -31,6 +31,11 @@ mod shared;
 mod store;
 mod sync;
 mod task;
+#[cfg(not(excsn_fibre_verif))]
+mod time;
+// Deterministic-simulation build (off by default): the cache reads a virtual clock.
+#[cfg(excsn_fibre_verif)]
+#[path = "time_verif.rs"]
 mod time;
 
 #[cfg(feature = "serde")]
